@@ -418,7 +418,8 @@ class HeaderSearchCriteria(SearchCriteria):
 
     def __init__(self, name: str, value: str, params: SearchParams) -> None:
         super().__init__(params)
-        self.name = name.encode('ascii')
+        # a name that is not ASCII is the name of no header field
+        self.name = name.encode('utf-8')
         self.value = value
 
     def matches(self, msg_seq: int, msg: MessageInterface,
